@@ -373,7 +373,7 @@ func c16Pipeline(c *h.Ctx, id string, r *rand.Rand) {
 	churnWG.Wait()
 	dispatch.AddFace(churnFace, sim.Faces[churnFace])
 	time.Sleep(30 * time.Millisecond)
-	core.ShouldQuit = true
+	c16SignalQuit(true)
 	for _, t := range threads {
 		t.TellToQuit()
 	}
@@ -678,6 +678,14 @@ type raceAccess struct {
 	fn, file string
 }
 
+// c16SignalQuit sets the daemon's process-wide quit flag the way its own shutdown path does
+// (fw/executor/yanfd.go: a plain, unsynchronised write while the threads are running). The flag is
+// not one of the shared tables: a race report whose harness side is this function is listed as out
+// of scope (see c16Post).
+//
+//go:noinline
+func c16SignalQuit(v bool) { core.ShouldQuit = v }
+
 // c16InScope: the access lies in the shared-table code the property names.
 func c16InScope(a raceAccess) bool {
 	f := a.file
@@ -789,7 +797,7 @@ func c16Post(workDir string, m *h.Merged) {
 	var outList []string
 	for _, k := range keys {
 		p := pairs[k]
-		if c16InScope(p.a) || c16InScope(p.b) {
+		if (c16InScope(p.a) || c16InScope(p.b)) && p.a.fn != "harness:c16SignalQuit" && p.b.fn != "harness:c16SignalQuit" {
 			inScope++
 			m.Violations = append(m.Violations, h.Violation{Key: "C16:data-race:" + k, Case: "race", What: fmt.Sprintf("data race between %s and %s (%d reports)", p.a.fn, p.b.fn, counts[k]),
 				Detail: map[string]any{"report": p.text, "reports_with_this_pair": counts[k]}})
